@@ -188,6 +188,10 @@ pub enum Op {
     /// The wall clock jumps (forwards or backwards) to this many seconds past the UNIX epoch;
     /// `None`: to some time before 1970, where `Epoch::now()` reports an error.
     SetClock { unix_s: Option<u64> },
+    /// `ms` milliseconds of simulated time pass between two operations (nothing happens: the
+    /// monotonic clock and the wall clock of the process advance). A provider that was right a
+    /// day ago must be right now.
+    Pause { ms: u64 },
     /// Only in runs whose clients name the file by a RELATIVE path: the process changes its
     /// working directory to a sibling directory that holds another file under the same name
     /// (`away`), or back home. The same relative path then names a different file.
@@ -223,6 +227,7 @@ impl Op {
             Op::Allow => 'A',
             Op::Restart { .. } => 'X',
             Op::SetClock { .. } => 'T',
+            Op::Pause { .. } => 'P',
             Op::Chdir { .. } => 'H',
             Op::Concurrent { .. } => 'C',
         }
@@ -801,6 +806,7 @@ pub fn generate(seed: u64, run_index: u64, infos: &[PoolInfo]) -> Scenario {
     let clock = clock_reading(&mut rng);
     if stratum != Stratum::Quiet {
         add_stalls(&mut ops, seed);
+        add_pauses(&mut ops, seed);
     }
     Scenario {
         seed,
@@ -861,6 +867,27 @@ fn add_stalls(ops: &mut [Op], seed: u64) {
             _ => {}
         }
     }
+}
+
+/// Simulated durations of a pause between operations, in milliseconds: a second to 400 days.
+pub const PAUSE_MS: [u64; 10] = [
+    1_000, 61_000, 3_600_000, 3_601_000, 86_400_000, 90_000_000, 604_800_000, 2_678_400_000, 31_622_400_000,
+    34_560_000_000,
+];
+
+/// Inserts pauses between operations (about one gap in ten; never into the fault-free tail).
+/// Like `add_stalls`, a pass of its own with a generator of its own.
+fn add_pauses(ops: &mut Vec<Op>, seed: u64) {
+    let mut rng = Rng::new(seed ^ 0x9A05_ED00_71C4_0002);
+    let body = ops.len().saturating_sub(3);
+    let mut out = Vec::with_capacity(ops.len() + 4);
+    for (i, op) in ops.drain(..).enumerate() {
+        if i > 0 && i <= body && rng.chance(1, 10) {
+            out.push(Op::Pause { ms: *rng.pick(&PAUSE_MS) });
+        }
+        out.push(op);
+    }
+    *ops = out;
 }
 
 fn continue_or_query(ops: &mut Vec<Op>, client: usize, rng: &mut Rng) {
